@@ -17,7 +17,7 @@ def layouts(ck):
     # fixed corner corpus first (includes minimised earlier failures)
     corpus = [((3, 10, 1), 4), ((0, 4), 4), ((4, 0), 4), ((2, 0, 4), 4), ((4, 0, 4), 4), ((1,), 1), ((8,), 4),
               ((3, 3, 3), 4), ((1, 1, 1, 1, 1, 1), 4), ((5,), 4), ((0, 0, 3), 2), ((4, 4), 4), ((0, 5, 0), 4),
-              ((2, 2, 0), 4), ((7, 1), 4)]
+              ((2, 2, 0), 4), ((7, 1), 4), (tuple([1] * 14) + (20,), 16), (tuple([2] * 13), 32)]
     out += corpus
     if quick:
         for _ in range(260):
@@ -33,6 +33,11 @@ def layouts(ck):
             L = ck.rng.choice([1, 2, 3, 4, 5, 8, 16])
             n = ck.rng.choice([4, 5, 6, 8, 12, 20])
             out.append((tuple(ck.rng.choice(list(range(0, 2 * L + 2)) + [L, L, L + 1]) for _ in range(n)), L))
+    # one piece spanning more files than the open-handle cap
+    for _ in range(12 if quick else 200):
+        L = ck.rng.choice([16, 24, 32])
+        n = ck.rng.randint(12, 30)
+        out.append((tuple(ck.rng.choice([1, 1, 1, 2, 3]) for _ in range(n)) + (ck.rng.choice([L, 2 * L + 3]),), L))
     # real-size layouts (piece lengths that torf itself produces); geometry only
     for _ in range(20 if quick else 300):
         L = ck.rng.choice([16384, 32768, 49152])
